@@ -282,11 +282,14 @@ Section Accept.
     destruct dg; [congruence|reflexivity].
   Qed.
 
+  Lemma hex_start_nonzero c t : (c =? 48)%N = false -> hex_start ud (c :: t) = false.
+  Proof. intros H. unfold hex_start. now rewrite H. Qed.
+
   Lemma int_match_nonzero c t : (c =? 48)%N = false ->
     int_match uw ud (c :: t) =
       match int_const ud false (c :: t) with Some (k, r) => Some ([], k, int_suffix uw ud k r) | None => None end.
   Proof.
-    intros H. unfold int_match. destruct c as [|p]; [reflexivity|].
+    intros H. unfold int_match. rewrite (hex_start_nonzero c t H). unfold int_match_old. destruct c as [|p]; [reflexivity|].
     repeat (destruct p as [p|p|]; try reflexivity). discriminate.
   Qed.
 
@@ -322,13 +325,20 @@ Section Accept.
   Qed.
 
   (* ------------------------------------------------------------------ constants that start with 0 *)
-  Lemma int_match_zero t : int_match uw ud (48%N :: t) =
+  Lemma hex_start_nox t : stops (in_set [120; 88]%N) t = true -> hex_start ud (48%N :: t) = false.
+  Proof.
+    intros H. unfold hex_start. destruct t as [|xc t]; [reflexivity|]. cbn [stops] in H. apply negb_true_iff in H.
+    now rewrite H.
+  Qed.
+
+  (* 0 not followed by x/X: the alternatives 0[bBxX]* | <empty> decide *)
+  Lemma int_match_zero t : stops (in_set [120; 88]%N) t = true -> int_match uw ud (48%N :: t) =
     let (bx, after) := span (in_set [98; 66; 120; 88]%N) t in
     match int_prefixes ud bx after (List.length bx) with
     | Some (pt, c, r) => Some (48%N :: pt, c, int_suffix uw ud c r)
     | None => match int_const ud false (48%N :: t) with Some (c, r) => Some ([], c, int_suffix uw ud c r) | None => None end
     end.
-  Proof. reflexivity. Qed.
+  Proof. intros H. unfold int_match. rewrite (hex_start_nox t H). reflexivity. Qed.
 
   Lemma int_const_none T : stops (isd ud) T = true -> int_const ud false T = None.
   Proof.
@@ -391,7 +401,7 @@ Section Accept.
     - (* "0": no prefix, constant 0 *)
       change (([48%N]) ++ sfx) with ([] ++ [48%N] ++ sfx).
       apply (accept_from_match [] [48%N] sfx rest 48%N (sfx ++ rest)); try assumption; try reflexivity.
-      + cbn [app]. rewrite int_match_zero. rewrite (span_stop _ _ (tail_stops_bx ud _ HT)).
+      + cbn [app]. rewrite (int_match_zero _ (tail_stops_x ud _ HT)). rewrite (span_stop _ _ (tail_stops_bx ud _ HT)).
         cbn [List.length int_prefixes firstn skipn app hexok_of]. rewrite (int_const_none _ (tail_stops_isd ud _ HT)).
         change (48%N :: sfx ++ rest) with ([48%N] ++ (sfx ++ rest)).
         rewrite (int_const_dec [48%N] (sfx ++ rest) eq_refl); [|discriminate|now apply tail_stops_isd].
@@ -400,7 +410,7 @@ Section Accept.
       change ((48%N :: o :: os) ++ sfx) with ([48%N] ++ (o :: os) ++ sfx).
       cbn [forallb] in Hod, Hos.
       apply (accept_from_match [48%N] (o :: os) sfx rest 48%N (((o :: os) ++ sfx) ++ rest)); try assumption; try reflexivity.
-      + cbn [app]. rewrite int_match_zero.
+      + cbn [app]. rewrite int_match_zero; [|apply digit_stops_x; lia].
         rewrite (span_stop (in_set [98; 66; 120; 88]%N) (o :: (os ++ sfx) ++ rest)); [|apply digit_stops_bx; lia].
         cbn [List.length int_prefixes firstn skipn app hexok_of].
         change (o :: (os ++ sfx) ++ rest) with (((o :: os) ++ sfx) ++ rest). rewrite <- app_assoc.
@@ -442,7 +452,7 @@ Section Accept.
       replace (b <? 128)%N with true by lia. lia.
     - (* the pattern *)
       change (([48%N; b] ++ (i :: bits) ++ sfx) ++ rest) with (48%N :: b :: ((i :: bits) ++ sfx) ++ rest).
-      rewrite int_match_zero.
+      rewrite int_match_zero; [|unfold is_bB in Hb; cbn [stops in_set existsb]; lia].
       assert (Esp : span (in_set [98; 66; 120; 88]%N) (b :: ((i :: bits) ++ sfx) ++ rest) = ([b], ((i :: bits) ++ sfx) ++ rest)).
       { change (b :: ((i :: bits) ++ sfx) ++ rest) with ([b] ++ (((i :: bits) ++ sfx) ++ rest)).
         apply span_app_stop; [unfold is_bB in Hb; cbn [forallb in_set existsb]; lia|].
@@ -529,8 +539,9 @@ Section Accept.
       apply forallb_forall. intros y Hy. rewrite forallb_forall in Hbs. now rewrite (Pbx_not_digit y (Hbs y Hy)).
   Qed.
 
-  (* the guards: (K1) a leading run of b/B digits is not followed by a decimal digit; (E) after a last digit e/E the
-     continuation does not start with + or - *)
+  (* (K1) a leading run of b/B digits is not followed by a decimal digit: the shape that the pattern mis-split before the
+     repair (no longer a guard of accept_hex_partial; kept for the relation with Spec.CConst.shape_k1);
+     (E) after a last digit e/E the continuation does not start with + or -: the remaining guard *)
   Definition hex_guard_k1 (hs : str) : bool :=
     let (bs, tl) := span is_bB hs in
     match bs with [] => true | _ => match tl with c :: _ => negb (ascii_digit c) | [] => true end end.
@@ -598,10 +609,10 @@ Section Accept.
   Theorem accept_hex_partial : forall xc hs sfx rest,
     is_xX xc = true -> forallb is_hex hs = true -> hs <> [] ->
     str_in sfx integer_suffixes = true -> delim rest = true ->
-    hex_guard_k1 hs = true -> hex_guard_e hs rest = true ->
+    hex_guard_e hs rest = true ->
     lex_one_ok_u uw ud (s "CONSTANT") ((48%N :: xc :: hs) ++ sfx) rest.
   Proof.
-    intros xc hs sfx rest Hx Hh Hne Hs Hdl Hk He.
+    intros xc hs sfx rest Hx Hh Hne Hs Hdl He.
     pose proof (suffix_ok sfx Hs) as Hso. pose proof (tail_ok_app ud sfx rest Hso Hdl) as HT.
     assert (Hsa : forallb alnum sfx = true) by (unfold sfx_ok in Hso; lia).
     assert (Hxa : alnum xc = true) by (unfold is_xX in Hx; unfold alnum, ascii_digit, ascii_alpha; lia).
@@ -623,27 +634,12 @@ Section Accept.
       + cbn [app chr_in existsb]. pose proof (hex_no_dot hs Hh) as Hd. unfold chr_in in Hd. rewrite Hd.
         unfold is_xX in Hx. lia.
     - (* the integer pattern *)
-      rewrite Ew, int_match_zero.
-      destruct (span is_bB hs) as [bs tl] eqn:Esp.
-      assert (EspP : span Pbx hs = (bs, tl)).
-      { rewrite <- Esp. apply span_ext. intros c Hc. rewrite forallb_forall in Hh. specialize (Hh c Hc).
-        unfold Pbx, is_bB, is_hex, is_dec in *. cbn [in_set existsb]. lia. }
-      destruct (span_spec _ _ _ _ EspP) as [Ehs [Hbs Htl]].
-      assert (Espan : span (in_set [98; 66; 120; 88]%N) (xc :: hs ++ sfx ++ rest) = (xc :: bs, tl ++ sfx ++ rest)).
-      { cbn [span]. assert (Epx : in_set [98; 66; 120; 88]%N xc = true) by (unfold is_xX in Hx; cbn [in_set existsb]; lia).
-        rewrite Epx. fold Pbx. rewrite (span_app_left Pbx hs (sfx ++ rest) bs tl EspP); [reflexivity|].
-        right. now apply (tail_stops_bx ud). }
-      rewrite Espan.
-      assert (Hst : bs <> [] -> stops (isd ud) (tl ++ sfx ++ rest) = true).
-      { intros Hb. unfold hex_guard_k1 in Hk. rewrite Esp in Hk. destruct bs as [|b0 bs']; [congruence|].
-        destruct tl as [|c tl']; [now apply tail_stops_isd|]. cbn [app stops].
-        assert (Hc : is_hex c = true).
-        { rewrite forallb_forall in Hh. apply Hh. rewrite Ehs. apply in_or_app. right. now left. }
-        unfold isd. unfold is_hex, is_dec in Hc. replace (c <? 128)%N with true by lia. exact Hk. }
-      assert (Hic : int_const ud true (bs ++ tl ++ sfx ++ rest) = Some (hs, sfx ++ rest)).
-      { rewrite app_assoc, <- Ehs. now apply int_const_hex. }
-      change (List.length (xc :: bs)) with (S (List.length bs)).
-      rewrite (int_prefixes_hex xc bs (tl ++ sfx ++ rest) hs (sfx ++ rest) Hx Hbs Hst Hic (List.length bs) (le_n _)).
+      rewrite Ew. unfold int_match.
+      assert (Ehs : hex_start ud (48%N :: xc :: hs ++ sfx ++ rest) = true).
+      { destruct hs as [|h hs']; [congruence|]. cbn [app hex_start]. cbn [forallb] in Hh. apply andb_true_iff in Hh as [Hh0 _].
+        rewrite (hex_ishex h Hh0). unfold is_xX in Hx. cbn [in_set existsb]. lia. }
+      rewrite Ehs. cbn [skipn firstn].
+      rewrite (span_app_stop (ishex ud) hs (sfx ++ rest)); [|apply forallb_forall; intros y Hy; rewrite forallb_forall in Hh; apply hex_ishex, Hh; assumption|now apply tail_stops_ishex].
       destruct (last_chr_forall is_hex hs Hh Hne) as [c [Hl Hc]].
       destruct (in_set [101; 69]%N c) eqn:Ec.
       + rewrite (int_suffix_e hs c sfx rest Hl Ec Hsa Hdl); [reflexivity|].
@@ -742,6 +738,17 @@ Proof. apply lex_one_ok_of_u. exact (accept_binary nouni nouni 98%N 49%N (s "010
 Example accept_hex_instance : lex_one_ok (s "CONSTANT") (s "0xDEADBEEFul") (s "+1") = true.
 Proof.
   apply lex_one_ok_of_u.
-  refine (accept_hex_partial nouni nouni 120%N (s "DEADBEEF") (s "ul") (s "+1") eq_refl eq_refl _ eq_refl eq_refl eq_refl eq_refl).
+  refine (accept_hex_partial nouni nouni 120%N (s "DEADBEEF") (s "ul") (s "+1") eq_refl eq_refl _ eq_refl eq_refl eq_refl).
   discriminate.
+Qed.
+(* the former finding K1: a run of b/B digits followed by a decimal digit *)
+Example accept_hex_k1_instances :
+  shape_k1 (s "0xb3ba") = true /\ lex_one_ok (s "CONSTANT") (s "0xb3ba") (s ";") = true /\
+  shape_k1 (s "0XBB98Bl") = true /\ lex_one_ok (s "CONSTANT") (s "0XBB98Bl") (s ")") = true.
+Proof.
+  split; [reflexivity|]. split.
+  - apply lex_one_ok_of_u.
+    refine (accept_hex_partial nouni nouni 120%N (s "b3ba") [] (s ";") eq_refl eq_refl _ eq_refl eq_refl eq_refl). discriminate.
+  - split; [reflexivity|]. apply lex_one_ok_of_u.
+    refine (accept_hex_partial nouni nouni 88%N (s "BB98B") (s "l") (s ")") eq_refl eq_refl _ eq_refl eq_refl eq_refl). discriminate.
 Qed.
